@@ -113,7 +113,7 @@ func genLabels(r *sim.Rand, n int) []string {
 // ---- plan generation --------------------------------------------------------------------
 
 type weights struct {
-	newbug, edit, commit, push, pull, fetch, merge, restart, identmut, remove, clockjump, partition, cachesize, delclocks, query, losecache int
+	newbug, edit, commit, push, pull, fetch, merge, restart, identmut, remove, clockjump, partition, cachesize, delclocks, query, losecache, cli int
 }
 
 // Generate builds the plan of one run. Everything is drawn from the run seed.
@@ -163,6 +163,8 @@ func (e *Engine) Generate(prop, tier string, seed uint64, run int) *sim.Plan {
 	case "C01", "C02", "C03", "C10":
 		// replication workload; identities are mutated on their home replica only
 		w.identmut = 3
+	case "C15":
+		w = weights{newbug: 6, edit: 16, commit: 2, push: 10, pull: 12, remove: 3, restart: 2, identmut: 2, cli: 34}
 	case "C14":
 		w = weights{newbug: 10, edit: 12, commit: 2, push: 14, pull: 16, fetch: 3, remove: 16, restart: 2, identmut: 2}
 	case "C11":
@@ -243,11 +245,11 @@ func (e *Engine) Generate(prop, tier string, seed uint64, run int) *sim.Plan {
 			st.R = burstRep
 			st.Op = "edit"
 		} else {
-			ws := []int{w.newbug, w.edit, w.commit, w.push, w.pull, w.fetch, w.merge, w.restart, w.identmut, w.remove, w.clockjump, w.partition, w.cachesize, w.delclocks, w.query, w.losecache}
+			ws := []int{w.newbug, w.edit, w.commit, w.push, w.pull, w.fetch, w.merge, w.restart, w.identmut, w.remove, w.clockjump, w.partition, w.cachesize, w.delclocks, w.query, w.losecache, w.cli}
 			if len(p.Steps) < 2 {
 				ws = []int{1}
 			}
-			st.Op = []string{"newbug", "edit", "commit", "push", "pull", "fetch", "merge", "restart", "identmut", "remove", "clockjump", "partition", "cachesize", "delclocks", "query", "losecache"}[r.Weighted(ws)]
+			st.Op = []string{"newbug", "edit", "commit", "push", "pull", "fetch", "merge", "restart", "identmut", "remove", "clockjump", "partition", "cachesize", "delclocks", "query", "losecache", "cli"}[r.Weighted(ws)]
 			if st.Op == "edit" && r.Chance(0.15) {
 				burstRep, burstLeft = st.R, r.Range(1, 4)
 			}
@@ -306,6 +308,13 @@ func (e *Engine) Generate(prop, tier string, seed uint64, run int) *sim.Plan {
 			st.N = r.Intn(64)
 			if r.Chance(0.5) {
 				st.R = 0 // the replica with the varying number of remotes
+			}
+		case "cli":
+			st.K = []string{"bug-new", "bug-new", "comment", "comment", "title", "close", "open", "label", "rm", "push", "pull", "user-new", "ls", "show", "user", "bridge-config"}[r.Intn(16)]
+			st.S = genTitle(r)
+			st.T = genMessage(r)
+			if st.T == "" {
+				st.T = "message"
 			}
 		case "losecache":
 			st.N = r.Range(1, 3) // bit mask: 1 = cache directory, 2 = index directory
